@@ -932,6 +932,21 @@ func allocEscapes(a *ssa.Alloc) bool {
 					return true
 				}
 			case *ssa.DebugRef:
+			case *ssa.MakeClosure:
+				// captured by a closure: the variable stays a local cell of this function when no closure can write
+				// it (the closure, and the closures it creates, only load from it or from addresses inside it)
+				if v != ssa.Value(a) {
+					return true
+				}
+				cf, ok := x.Fn.(*ssa.Function)
+				if !ok {
+					return true
+				}
+				for i, b := range x.Bindings {
+					if b == v && (i >= len(cf.FreeVars) || !closureOnlyReads(cf.FreeVars[i], map[ssa.Value]bool{})) {
+						return true
+					}
+				}
 			default:
 				return true
 			}
@@ -939,6 +954,52 @@ func allocEscapes(a *ssa.Alloc) bool {
 		return false
 	}
 	return check(a)
+}
+
+// closureOnlyReads: inside its closure the captured variable v (a free variable, or an address derived from it) is
+// only loaded from, possibly through closures created there; it is never stored to, passed, stored or sliced.
+func closureOnlyReads(v ssa.Value, seen map[ssa.Value]bool) bool {
+	if seen[v] {
+		return true
+	}
+	seen[v] = true
+	refs := v.Referrers()
+	if refs == nil {
+		return false
+	}
+	for _, r := range *refs {
+		switch x := r.(type) {
+		case *ssa.DebugRef:
+		case *ssa.UnOp:
+			if x.Op != token.MUL {
+				return false
+			}
+		case *ssa.FieldAddr:
+			if !closureOnlyReads(x, seen) {
+				return false
+			}
+		case *ssa.IndexAddr:
+			if x.X != v || !closureOnlyReads(x, seen) {
+				return false
+			}
+		case *ssa.MakeClosure:
+			if _, isFV := v.(*ssa.FreeVar); !isFV {
+				return false
+			}
+			cf, ok := x.Fn.(*ssa.Function)
+			if !ok {
+				return false
+			}
+			for i, b := range x.Bindings {
+				if b == v && (i >= len(cf.FreeVars) || !closureOnlyReads(cf.FreeVars[i], seen)) {
+					return false
+				}
+			}
+		default:
+			return false
+		}
+	}
+	return true
 }
 
 // ---------------------------------------------------------------------------
@@ -1760,8 +1821,8 @@ func (fc *fnCtx) execInstr(st *State, instr ssa.Instruction) {
 	case *ssa.MakeClosure:
 		r := fc.allocRef(st, x.Name())
 		fc.setVal(x, r)
-		// captured cells may be written by the closure whenever it runs: conservatively
-		// their addresses escaped (allocEscapes saw MakeClosure), so they live in the heap.
+		// captured cells that some closure may write live in the heap (allocEscapes); those that every
+		// capturing closure only reads stay local cells of this function
 	case *ssa.Range:
 		fc.vals[x] = Val{T: "0", Ty: x.Type(), Tup: []Val{fc.get(st, x.X)}}
 	case *ssa.Next:
